@@ -101,7 +101,7 @@ Print Assumptions C19_rule_merge_overlays.
 
 Theorem C19_rule_absent_target_is_plain_write :
   forall w wd d f p s, fault s = None -> stat (fs s) p = SNoEnt -> word_of w = Some wd -> wd <> WRemove ->
-    (match wd with WMerge => isSome f | _ => false end) = false ->
+    precheck quirks_off wd d f = false ->
     out quirks_off REntry false (cfg w d f) p s = out quirks_off REntry false (VTup None d f) p (tk s).
 Proof. exact rule_absent. Qed.
 Print Assumptions C19_rule_absent_target_is_plain_write.
